@@ -100,6 +100,43 @@ class _Sub(ast.NodeTransformer):
         return n
 
 
+def iteration_locals(body, names_outside):
+    """names assigned in a loop body that are private to one iteration: never mentioned outside the loop, and in the body
+    first occur (in source order) as an assignment target - i.e. not loop-carried state such as an accumulator"""
+    first = {}
+    for st in body:
+        for x in _in_order(st):
+            if isinstance(x, ast.Name) and x.id not in first:
+                first[x.id] = isinstance(x.ctx, ast.Store)
+    return {n for n, is_store in first.items() if is_store and n not in names_outside and n in _stored(body)}
+
+
+def _in_order(node):
+    """names in evaluation order: for an assignment the value is read before the target is written"""
+    if isinstance(node, ast.Assign):
+        yield from _in_order(node.value)
+        for t in node.targets:
+            yield from _in_order(t)
+        return
+    if isinstance(node, ast.AugAssign):
+        # the target is read first
+        if isinstance(node.target, ast.Name):
+            yield ast.Name(id=node.target.id, ctx=ast.Load())
+        yield from _in_order(node.value)
+        yield from _in_order(node.target)
+        return
+    if isinstance(node, ast.Name):
+        yield node
+        return
+    for c in ast.iter_child_nodes(node):
+        yield from _in_order(c)
+
+
+def names_outside(fnode, node):
+    inside = {id(x) for x in ast.walk(node)}
+    return {x.id for x in ast.walk(fnode) if isinstance(x, ast.Name) and id(x) not in inside}
+
+
 def _stored(stmts):
     out = set()
     for st in stmts:
@@ -134,7 +171,7 @@ def unroll(repo, f):
                             ok = False
                     if ok:
                         stored = _stored(st.body)
-                        locals_ = stored - {n.id for n in names}
+                        locals_ = iteration_locals(st.body, names_outside(f.node, st)) - {n.id for n in names}
                         rebound = stored & {n.id for n in names}
                         k = count[0]
                         count[0] += 1
